@@ -43,7 +43,8 @@ def main():
                 print("%s inconclusive (exit %d)\n%s" % (i, r.returncode, r.stdout[-1500:]))
     finally:
         sh("git -C /repo checkout -- .")
-        sh("./run build", cwd=VERIF)
+        if "--no-rebuild" not in os.environ.get("SENS_OPTS", ""):   # a batch driver rebuilds once at the end
+            sh("./run build", cwd=VERIF)
     print("SUMMARY " + " ".join("%s=%s" % kv for kv in res.items()))
     return 0
 
